@@ -11,7 +11,11 @@
   * `count_period`: if `k ↦ T^k s` runs through the states `≠ z` without repetition for
     `k < N`, then counting over one period is counting over the states `≠ z`;
   * the six splittings of `S2`, `S4`, `S8` used by the 14 generators and the sizes of their
-    complements.
+    complements;
+  * `card_fibre_comp`, `states_count_comp`, `card_upper`, `card_lower`: a function of the output
+    (the halves of a `u64`);
+  * `stride2`: walking an odd cycle two steps at a time; `pair64_states`: the packed pair of two
+    consecutive outputs of a xoroshiro64 generator is a bijection of the state.
 -/
 import Rngs.Lib.FullPeriod
 import Rngs.Lib.BitInj
@@ -402,6 +406,64 @@ theorem card_R7 : Fintype.card R7 = 2 ^ 448 := by
     Fintype.card_prod, Fintype.card_prod, card_bitVec, ← Nat.pow_add, ← Nat.pow_add,
     ← Nat.pow_add, ← Nat.pow_add, ← Nat.pow_add, ← Nat.pow_add]
 
+/-! ## every second state of an odd cycle -/
+
+theorem iter_twice {σ : Type} (T : σ → σ) (k : Nat) (s : σ) :
+    iter (fun s => T (T s)) k s = iter T (2 * k) s := by
+  rw [Nat.mul_comm, iter_mul]
+  rfl
+
+/-- Walking an odd cycle two steps at a time visits every state of the cycle exactly once in
+    `N` double steps: the three facts `count_period` needs, for `T ∘ T`. -/
+theorem stride2 {σ : Type} {T : σ → σ} {N : Nat} {z s : σ} (hodd : N % 2 = 1)
+    (hinj : Function.Injective T) (hper : iter T N s = s)
+    (hmin : ∀ k, 0 < k → k < N → iter T k s ≠ s)
+    (hnz : ∀ k, iter T k s ≠ z)
+    (hsc : ∀ t, t ≠ z → ∃ k, k < N ∧ iter T k s = t) :
+    (∀ k, iter (fun s => T (T s)) k s ≠ z) ∧
+    (∀ i j, i < j → j < N → iter (fun s => T (T s)) i s ≠ iter (fun s => T (T s)) j s) ∧
+    (∀ t, t ≠ z → ∃ k, k < N ∧ iter (fun s => T (T s)) k s = t) := by
+  refine ⟨fun k => ?_, fun i j hij hj => ?_, fun t ht => ?_⟩
+  · rw [iter_twice]; exact hnz _
+  · rw [iter_twice, iter_twice]
+    intro he
+    obtain ⟨d, rfl⟩ := Nat.exists_eq_add_of_lt hij
+    have e : 2 * (i + d + 1) = 2 * i + (2 * d + 2) := by omega
+    rw [e, iter_add] at he
+    have h2 : iter T (2 * d + 2) s = s := (iter_injective hinj (2 * i) he).symm
+    by_cases hlt : 2 * d + 2 < N
+    · exact hmin _ (by omega) hlt h2
+    · have e2 : 2 * d + 2 = (2 * d + 2 - N) + N := by omega
+      rw [e2, iter_add, hper] at h2
+      exact hmin _ (by omega) (by omega) h2
+  · obtain ⟨k, hk, e⟩ := hsc t ht
+    by_cases hev : k % 2 = 0
+    · refine ⟨k / 2, by omega, ?_⟩
+      rw [iter_twice, show 2 * (k / 2) = k by omega]; exact e
+    · refine ⟨(k + N) / 2, by omega, ?_⟩
+      rw [iter_twice, show 2 * ((k + N) / 2) = k + N by omega, iter_add, hper]; exact e
+
+/-- if no value is counted more than once, the outputs at different positions differ -/
+theorem distinct_of_count_le_one {β : Type} [DecidableEq β] {N : Nat} (g : Nat → β)
+    (h : ∀ y, ((Finset.range N).filter (fun k => g k = y)).card ≤ 1)
+    {i j : Nat} (hi : i < N) (hj : j < N) (hij : i ≠ j) : g i ≠ g j := by
+  intro e
+  have := Finset.card_le_one.mp (h (g j)) i
+    (Finset.mem_filter.mpr ⟨Finset.mem_range.mpr hi, e⟩) j
+    (Finset.mem_filter.mpr ⟨Finset.mem_range.mpr hj, rfl⟩)
+  exact hij this
+
+/-- a value counted zero times does not occur -/
+theorem not_occurs_of_count_zero {β : Type} [DecidableEq β] {N : Nat} (g : Nat → β) (y : β)
+    (h : ((Finset.range N).filter (fun k => g k = y)).card = 0) {k : Nat} (hk : k < N) :
+    g k ≠ y := by
+  intro e
+  have := Finset.card_eq_zero.mp h
+  have hm : k ∈ (Finset.range N).filter (fun k => g k = y) := by
+    simp only [Finset.mem_filter, Finset.mem_range]; exact ⟨hk, e⟩
+  rw [this] at hm
+  exact absurd hm (Finset.notMem_empty k)
+
 /-- `U64`, distinguished: the upper half -/
 def splitHi : Split U64 U32 U32 where
   join a r := joinHL a r
@@ -429,5 +491,65 @@ theorem card_lower (v : U32) :
     (Finset.univ.filter (fun y : U64 => (y.setWidth 32 : U32) = v)).card = 2 ^ 32 :=
   (card_fibre splitLo (fun y : U64 => (y.setWidth 32 : U32)) (fun _ a => a) (fun _ y => y)
     (fun a r => lower_join r a) (fun _ _ => rfl) (fun _ _ => rfl) v).trans (card_bitVec 32)
+
+/-! ## two consecutive outputs of the xoroshiro64 generators (`next_u64_via_u32`) -/
+
+/-- an injective map between finite types of the same size hits every value exactly once -/
+theorem card_fibre_of_injective {σ β : Type} [Fintype σ] [Fintype β] [DecidableEq β]
+    (f : σ → β) (hinj : Function.Injective f) (hcard : Fintype.card σ = Fintype.card β) (y : β) :
+    (Finset.univ.filter (fun t : σ => f t = y)).card = 1 := by
+  obtain ⟨t₀, h₀⟩ := ((Fintype.bijective_iff_injective_and_card f).mpr ⟨hinj, hcard⟩).2 y
+  rw [Finset.card_eq_one]
+  refine ⟨t₀, ?_⟩
+  ext t
+  simp only [Finset.mem_filter, Finset.mem_univ, true_and, Finset.mem_singleton]
+  constructor
+  · intro h; exact hinj (h.trans h₀.symm)
+  · intro h; rw [h]; exact h₀
+
+theorem joinHL_injective {a b c d : U32} (h : joinHL a b = joinHL c d) : a = c ∧ b = d := by
+  constructor
+  · have := congrArg (fun y : U64 => ((y >>> 32).setWidth 32 : U32)) h
+    simpa only [upper_join] using this
+  · have := congrArg (fun y : U64 => (y.setWidth 32 : U32)) h
+    simpa only [lower_join] using this
+
+/-- two consecutive outputs of a xoroshiro64 generator with scrambler `f` of `s0`, packed as
+    `next_u64_via_u32` packs them -/
+def pair64 (f : U32 → U32) (t : S2 32) : U64 := joinHL (f (xoroshiroU32 t).s0) (f t.s0)
+
+theorem pair64_injective (f : U32 → U32) (hf : Function.Injective f) :
+    Function.Injective (pair64 f) := by
+  intro t t' h
+  obtain ⟨h1, h2⟩ := joinHL_injective h
+  have e0 : t.s0 = t'.s0 := hf h2
+  have e1 := hf h1
+  have x : ∀ u : S2 32, (xoroshiroU32 u).s0
+      = u.s0.rotateLeft 26 ^^^ ((u.s1 ^^^ u.s0) ^^^ ((u.s1 ^^^ u.s0) <<< 9)) := by
+    intro u; simp only [xoroshiroU32, BitVec.xor_assoc]
+  rw [x, x, e0] at e1
+  have e2 := BitInj.xorShl_injective 9 (by decide) ((BitVec.xor_right_inj _).mp e1)
+  have e3 : t.s1 = t'.s1 := (BitVec.xor_left_inj _).mp e2
+  cases t; cases t'
+  simp_all
+
+theorem card_U64_eq_S2 : Fintype.card (S2 32) = Fintype.card U64 := by
+  rw [card_S2, card_bitVec]
+
+/-- every 64-bit value is the packed pair of consecutive outputs of exactly one state; for the
+    non-zero states: 0 of none, every other value of exactly one -/
+theorem pair64_states (f : U32 → U32) (hf : Function.Injective f) (h0 : f 0 = 0) (y : U64) :
+    (Finset.univ.filter (fun t : S2 32 => t ≠ S2.zero ∧ pair64 f t = y)).card
+      = if y = 0 then 0 else 1 := by
+  have hz : pair64 f S2.zero = 0 := by
+    have : xoroshiroU32 S2.zero = S2.zero := by decide
+    unfold pair64
+    rw [this]
+    show joinHL (f 0) (f 0) = 0
+    rw [h0]; decide
+  rw [card_nonzero_fibre, card_fibre_of_injective _ (pair64_injective f hf) card_U64_eq_S2, hz]
+  by_cases h : y = 0
+  · subst h; simp
+  · rw [if_neg h, if_neg (fun e => h e.symm)]
 
 end Rngs.Equidist
